@@ -2,31 +2,63 @@
 
 HOOKS = {
     "guard": "cfg(kani)",
-    "enable": "set automatically by kani-compiler when the harness crates under /verif/harness are built with `cargo kani`; never set by cargo build/test",
-    "baseline_off_cmd": "cd /repo && cargo nextest run --workspace --no-fail-fast --test-threads 8 --offline || cargo test --workspace --no-fail-fast --offline",
-    "source_commits": [],
+    "enable": "set automatically (and only) by kani-compiler when the harness crates under /verif/harness are built with `cargo kani`; cargo build/test never set it",
+    "baseline_off_cmd": "cd /repo && (cargo nextest run --workspace --no-fail-fast --test-threads 8 --offline || cargo test --workspace --no-fail-fast --offline)",
+    "source_commits": ["b6c0ba7", "f428fc8"],
     "add_only": True,
 }
 
-NOTES = ("All checks are bounded symbolic execution with Kani; bounds and what lies outside them are in each evidence file "
-         "and in DESIGN.md. Exit 2 = inconclusive (never a pass). fix: commits in /repo are listed in known-findings.txt.")
+NOTES = ("All checks are bounded symbolic execution of /repo's compiled code with Kani (CBMC + CaDiCaL); bounds and what lies "
+         "outside them are in each evidence file and in DESIGN.md. Exit 2 = inconclusive (never a pass). "
+         "fix: commits in /repo (3471e8e C20, 477dd88 C07) are listed in known-findings.txt. "
+         "15 of the 20 properties are not applicable to this technique on this code base; the measured reasons are in DESIGN.md section 5.")
 
-PENDING = "not yet built in this round (see DESIGN.md section 6 for the order of work); will be claimed only once a Kani harness decides it"
+ASYNC = ("decided only by the job-task / worker `async` state machines; Kani encodes coroutine state as a union, CBMC loses every "
+         "constant stored across an `.await`, and the real future did not finish symbolic execution in 30 min even for one concrete "
+         "control (one `select!` over three receivers alone: 8-11M SAT variables). Measured in DESIGN.md section 5; no straight-line seam exists")
 
 NOT_APPLICABLE = {
-    "C01": PENDING, "C02": PENDING, "C04": PENDING, "C06": PENDING, "C07": PENDING, "C08": PENDING, "C09": PENDING,
-    "C10": PENDING, "C13": PENDING, "C15": PENDING, "C16": PENDING, "C17": PENDING, "C18": PENDING, "C19": PENDING,
-    "C03": "the verdict is computed by ignore::gitignore (globset, regex-automata) and a radix trie keyed by Display-formatted heap strings; none of that terminates under CBMC in budget and replacing it by a model would verify the model, not the code (DESIGN 4/C03)",
-    "C05": "the policy lives in a closure inside cli::config::make_config; driving it needs clap Args, State (temp files, sockets) and several cooperating tokio tasks; the cli crate is outside Kani's compile-and-symex reach (DESIGN 4/C05)",
-    "C11": "every verdict goes through the glob engine (ignore::gitignore::Gitignore); no bounded encoding of the real matcher is within reach (DESIGN 4/C11)",
-    "C12": "needs clap parsing, filesystem discovery (tokio::fs, gix-config), environment variables and the glob engine; flag logic is inline in async fns that cannot be reached without them (DESIGN 4/C12)",
-    "C14": "a directory walk over tokio::fs + gix-config + the glob engine; nothing to encode without the filesystem (DESIGN 4/C14)",
+    "C01": "event path = lib::action::worker::throttle_collect + worker (async, priority channel, tokio timeout): " + ASYNC,
+    "C02": "debounce window = the same async throttle_collect loop over virtual time: " + ASYNC,
+    "C03": "the verdict is computed by ignore::gitignore (globset, regex-automata) and a radix trie keyed by Display-formatted heap strings; one concrete `Path::components` comparison already costs 25M SAT variables (C17 probe), glob compilation is far beyond that; replacing the engine by a model would verify the model, not the code",
+    "C04": "sequencing of spawns is the job task loop (supervisor::job::task, async): " + ASYNC + "; a state-object-level harness over CommandState::{spawn,reset} alone also ran out of memory (4.7M symex steps for 4 concrete paths: Box<dyn TokioChildWrapper>/io::Error drop-glue fan-out)",
+    "C05": "the policy lives in a closure inside cli::config::make_config; driving it needs clap Args, State (temp files, sockets) and several cooperating tokio tasks; async and far outside Kani's reach",
+    "C06": "graceful stop = job task loop + PriorityReceiver::recv timer branch (async select!): " + ASYNC,
+    "C08": "quit path = action worker + LateJoinSet + job tasks, all async: " + ASYNC,
+    "C09": "lifecycle = the job task loop compared against a reference model: " + ASYNC,
+    "C10": "ordering is decided by PriorityReceiver::recv (async fn with tokio select!): one recv from concrete queues costs 8M SAT variables / 100 s, with a symbolic select! start 11M / 420 s, a 16-scenario harness did not finish in 30 min and the 4-scenario select harness ran out of memory at 7.1M symex steps",
+    "C11": "every verdict goes through the glob engine (ignore::gitignore::Gitignore); no bounded encoding of the real matcher is within reach (see C03)",
+    "C12": "needs clap parsing, filesystem discovery (tokio::fs, gix-config), environment variables and the glob engine; the flag logic is inline in async fns",
+    "C13": "watcher registration is the async fs worker over notify + HashSet<WatchedPath> (hash maps over symbolic keys: one insert > 15 min) and tokio::sync::Notify: " + ASYNC,
+    "C14": "a directory walk over tokio::fs + gix-config + the glob engine; nothing to encode without the filesystem",
+    "C15": "error delivery = async error_hook / worker loops over RuntimeError (io::Error, notify::Error, Box<dyn>) and real tokio mpsc (cooperative-budget thread-local: executing it never finished): " + ASYNC,
+    "C17": "paths::common_prefix / summarise_events_to_env are built on Path::components and HashMap/HashSet: a single fully concrete common_prefix([\"/a/b\",\"/a/c\"]) costs 25M SAT variables / 109M clauses / 274 s; any symbolic input is out of reach, hash containers over symbolic keys likewise",
 }
 
 CHECKS = {
+    "C07": {
+        "text": "Bounded, solver-decided: 3 waiter tasks polling clones of one flag / clones of one ticket / two tickets of one job in every interleaving of 3 poll slots (re-polls included), then the control's flag or the job-gone flag is raised; every parked waiter must have been woken and every clone resolves. This is the wake-up half of the property (where the genuine lost-wake-up defect was found and fixed); the task-level half (which controls raise which flag, graceful-stop timing, failures) is not covered.",
+        "design_ref": "4/C07",
+        "note": "Trusted: Kani/CBMC/CaDiCaL; models/tokio waker identities and poll helper; hook watchexec_supervisor::verif (cfg(kani)). Sequential execution: atomics/Mutex are run without thread interleavings. Not covered: supervisor::job::task (async, out of reach) - so a mutation that forgets to raise a control's flag in task.rs is NOT detected.",
+    },
+    "C16": {
+        "text": "Bounded, solver-decided at the serde data-model level: Tag <-> SerdeTag identity for every non-fs tag kind over full integer ranges; documented field placement; all 41 filesystem event kinds through their wire names (format half with real core::fmt + parse half, sharing one table); totality of the wire->Tag conversion over every kind x field-presence mask x integer payload (same kind or Unknown, NonZero invariants); Signal <-> SerdeSignal both ways.",
+        "design_ref": "4/C16",
+        "note": "Trusted: Kani/CBMC/CaDiCaL; hooks watchexec_events::verif / watchexec_signals::verif (cfg(kani)). Not covered: the serde_json text layer and serde-derive attribute spelling (field names in the text, kebab-case renames), Event-level vectors and metadata maps (HashMap), non-UTF-8 paths. In the quick tier 2 of the 6 format-half ranges run (14 kinds); all 41 in thorough.",
+    },
+    "C18": {
+        "text": "Bounded, solver-decided for the no-shell branch: Command::to_spawnable with Program::Exec hands the process layer exactly [program, args...] byte for byte, for 0..=3 arguments of 0..=2 symbolic ASCII bytes (every metacharacter/whitespace/quote/control byte) plus a multi-byte argument, and exactly the wrappers {KillOnDrop} + {Session | Group} + {ResetSigmask} for all 8 option combinations.",
+        "design_ref": "4/C18",
+        "note": "Trusted: Kani/CBMC/CaDiCaL; models/tokio process::Command and models/process-wrap (recorders). Not covered: the Program::Shell branch (measured intractable: 31M variables for one concrete scenario), exec fidelity below tokio::process::Command, spawn-hook env/cwd, CLI argument interpretation, strings longer than 2 bytes.",
+    },
+    "C19": {
+        "text": "Solver-decided over full ranges: Signal::from(i32) vs to_nix for all 2^32 numbers, POSIX numbers of the first-class signals, to_nix/from_nix round trip for every Signal value, ProcessEnd::from(ExitStatus) for all 2^32 raw wait statuses (exit code, terminating signal with/without core bit, stopped, continued, never the unreachable!), ProcessEnd -> ExitStatus -> ProcessEnd for Success / ExitError(1..=255) / ExitSignal(valid).",
+        "design_ref": "4/C19",
+        "note": "Trusted: Kani/CBMC/CaDiCaL; std's unix wait-status decoding as compiled; Linux x86_64 signal numbering. Not covered: name parsing and Display (Signal::from_str on one concrete 3-letter name did not finish in 25 min: core::fmt + allocation + 30-way string match), --map-signal parsing, Windows branches.",
+    },
     "C20": {
         "text": "Solver-decided over the complete ProjectType enumeration (discriminant symbolic, bounded by mem::variant_count so new variants are covered): is_vcs xor is_soft. Complete for the classification sentence of the property; the origin-walk sentences are not covered.",
         "design_ref": "4/C20",
-        "note": "Trusted: Kani/CBMC/CaDiCaL, kani-compiler's MIR of project-origins. Not covered: origins()/types() (async tokio::fs walks over unconstructible std::fs::FileType) - stated as outside the claim.",
+        "note": "Trusted: Kani/CBMC/CaDiCaL, kani-compiler's MIR of project-origins. Not covered: origins()/types() (async tokio::fs walks over unconstructible std::fs::FileType).",
     },
 }
